@@ -108,6 +108,7 @@ class Scratch:
         self.target = os.path.join(self.dir, "target")
         self.keep = keep
         self.injected = set()
+        self.disabled = set()
         subprocess.run(["rsync", "-a", "--exclude", "target", "--exclude", ".git", REPO + "/", self.src + "/"], check=True)
         shutil.copytree(HARNESS_DIR, self.hdir)
 
@@ -126,6 +127,7 @@ class Scratch:
     def disable(self, files):
         """blank out harness files (they stay injected, but contain nothing)"""
         for f in files:
+            self.disabled.add(f)
             with open(os.path.join(self.hdir, f), "w") as fh:
                 fh.write("// disabled: does not compile against the current /repo\n")
 
@@ -218,6 +220,14 @@ def run(scratch, harnesses, jobs=12, logdir=None, mem_gb=float(os.environ.get("V
         groups.setdefault((h.crate, h.group), []).append(h)
     for (crate, group), hs in sorted(groups.items()):
         flags = GROUP_FLAGS[group]
+        # harness files disabled while building an earlier group stay disabled
+        for h in [h for h in hs if h.file in scratch.disabled]:
+            r = results[h.pretty]
+            r.status = "inconclusive"
+            r.reason = f"harness file {h.file} no longer compiles against /repo (an item it names changed)"
+        hs = [h for h in hs if h.file not in scratch.disabled]
+        if not hs:
+            continue
         # phase 1: code generation (no memory cap; compile errors show up here)
         log1 = os.path.join(logdir, f"codegen-{crate}-{group}.log")
         rc, dt = _cargo_kani(scratch, crate, hs, flags + ["--only-codegen"], log1, timeout=1800)
